@@ -186,8 +186,8 @@ def task_csearch(ctx, arg):
         if 'encode' in v['fid'] or '_to_' in v['fid']:
             return ['C10']
         p = ['C08']
-        if 'twist' in v['failure'] or 'near-miss' in v['failure']:
-            p.append('C09')
+        if not any(t in v['failure'] for t in ('short', 'long', 'shift', 'prefix')):
+            p.append('C09')      # the accept / reject decision on a well-framed string is the validated constructor's
         if 'valid' in v['failure'] or 'roundtrip' in v['failure']:
             p.append('C10')
         if 'random-x' in v['failure'] or 'rejects' in v['failure']:
@@ -265,6 +265,52 @@ def task_pairsearch(ctx, arg):
 VERUS_PROPS = {'divrem': ['C06', 'C07', 'C12', 'C13'], 'invr': ['C06', 'C07', 'C13'], 'inv': ['C06', 'C07', 'C12', 'C13'], 'fp': ['C06', 'C07', 'C12', 'C13'], 'fpr': ['C06', 'C07', 'C13'],
                'mul': ['C06', 'C07', 'C12', 'C13'], 'sop': ['C06', 'C07', 'C12', 'C13'], 'square': ['C06', 'C07', 'C12']}
 
+# ---------------------------------------------------------------------------------------------
+# termination of the RNG-facing constructors (C07 "every value obtainable ... from an RNG stream"): a structural contract on MIR
+TERM_CHAIN = [
+    # (obligation name, MIR function regex (normalised name), file, allowed callees)
+    ('lib::Fr::random', r'^<impl>::random$', 'src/lib.rs', [r'^<fields::fp::Fr as FieldElement>::random']),
+    ('fp::FieldElement::random', r'<impl>::random$', 'src/fields/fp.rs', [r'^U256::random', r'^<F[RQ] as Deref>::deref$']),
+    ('u256::U256::random', r'<impl>::random$', 'src/u256.rs', [r'^U512::random', r'^U512::divrem$']),
+    ('u512::U512::random', r'<impl>::random$', 'src/u512.rs', [r'^<R as Rng>::gen', r'^rand::Rng::gen', r'^U512$', r'^ark_ff::BigInt']),
+]
+
+def task_term(ctx, arg):
+    """`Fr::random` returns after finitely many RNG calls for EVERY RNG stream: every function on its call chain is loop-free
+    (no back edge in its MIR control-flow graph) and calls only the next link, `U512::divrem` (terminates: E1 `decreases`) and
+    the RNG itself (each `gen` call returns: A10)."""
+    import mirparse, re
+    funcs = load_mir(ctx)
+    obligations = []
+    base = dict(engine='E3 mirvc (structural contract on rustc MIR)', backend='control-flow graph back-edge search', props=['C07'], seconds=0.0)
+    for name, pat, file, allowed in TERM_CHAIN:
+        hits = [f for f in funcs.values() if mirparse.norm_key(f)[0] == file and re.search(pat, mirparse.norm_key(f)[1])]
+        if not hits:
+            obligations.append(dict(base, id='term/%s/loop_free' % name, function=name, status='undecided', detail='function not found in the MIR dump (lost anchor)'))
+            continue
+        for k, f in enumerate(hits):
+            suffix = '' if len(hits) == 1 else '#%d' % k
+            lp = mirparse.loops(f)
+            obligations.append(dict(base, id='term/%s%s/loop_free' % (name, suffix), function=name, status='discharged' if not lp else 'undecided',
+                                    detail='no back edge in the MIR control-flow graph' if not lp else
+                                    'the function now contains a loop (back edge to bb%s): it no longer returns after a bounded number of RNG calls for every stream' % sorted(lp)[0]))
+            callees = sorted(set(t[2] for _, (_, t) in f.blocks.items() if t[0] == 'call' and isinstance(t[2], str)))
+            other = [c for c in callees if not any(re.search(a, c) for a in allowed)]
+            obligations.append(dict(base, id='term/%s%s/callees' % (name, suffix), function=name, status='discharged' if not other else 'undecided',
+                                    detail='calls only: %s' % ', '.join(callees) if not other else 'calls functions outside the verified chain: %s' % ', '.join(other)))
+    return dict(obligations=obligations)
+
+def task_rsearch(ctx, arg):
+    """Fr::random on exact RNG byte streams (constant, modulus-shaped, random): terminates, canonical (C07)"""
+    import search_rng
+    drv = get_driver()
+    t = time.time()
+    st, viols = search_rng.search(drv, ctx.seed, ctx.tier)
+    violations = [dict(obligation='rng/' + v['fid'], props=['C07'], summary='%s(stream %s...) expected %s observed %s [%s]' % (
+        v['hook'], v['args'][0][:24], str(v['expected'])[:50], str(v['observed'])[:60], v['failure']),
+        replay=dict(kind='hook', **v), input_class=v['failure']) for v in viols]
+    return dict(violations=violations, searches=[dict(name='rsearch/Fr::random', cases=st['cases'], seconds=round(time.time() - t, 2), props=['C07'])])
+
 # functions of the Verus chains that other properties hand over to (tagged onto those properties only)
 VERUS_FN_EXTRA = {'bititer_next': ['C05', 'C11'], 'u256_get_bit': ['C05', 'C11'], 'u256_bits': ['C05', 'C11'], 'fq_into_u256': ['C05', 'C11'], 'fq_div2': ['C14'], 'div2': ['C14']}
 
@@ -336,11 +382,13 @@ def task_verus(ctx, unit):
 KANI_GROUPS = {
     'limbs_linear': dict(harnesses=['u256_add_exact', 'u256_sub_exact', 'u256_neg_exact', 'u256_mul2_exact', 'u256_div2_exact',
                                     'u256_subtract_modulus_exact', 'u256_set_get_bit'], props=['C06', 'C07', 'C18', 'C13'], timeout=600),
+    'field_linear': dict(harnesses=['fq_add_exact', 'fq_sub_exact', 'fq_neg_exact', 'fq_double_exact', 'fr_add_exact', 'fr_sub_exact', 'fr_neg_exact', 'fr_double_exact', 'fq_div2_exact'],
+                         props=['C06', 'C07', 'C18', 'C14', 'C12'], timeout=600),
     'bytes': dict(harnesses=['u256_from_slice_total', 'u256_to_big_endian_total', 'u512_from_slice_total'], props=['C13', 'C18', 'C08', 'C10'], timeout=900),
     'dec_quick': dict(harnesses=['g1_from_slice_wrong_length', 'g1_from_uncompressed_wrong_length', 'g1_from_compressed_wrong_length',
                                  'g2_from_slice_wrong_length', 'g2_from_uncompressed_wrong_length', 'g2_from_compressed_wrong_length',
                                  'g1_from_slice_modular', 'g1_from_uncompressed_modular', 'g1_from_compressed_modular',
-                                 'g2_from_slice_modular', 'g2_from_uncompressed_modular', 'g2_from_compressed_modular'], props=['C08', 'C18'], timeout=900),
+                                 'g2_from_slice_modular', 'g2_from_uncompressed_modular', 'g2_from_compressed_modular'], props=['C08', 'C18', 'C09'], timeout=900),
     'enc': dict(harnesses=['g1_to_slice_layout', 'g1_to_uncompressed_layout', 'g1_to_compressed_layout',
                            'g2_to_slice_layout', 'g2_to_uncompressed_layout', 'g2_to_compressed_layout',
                            'fq12_to_slice_layout', 'fq2_to_slice_layout'], props=['C10', 'C18', 'C11', 'C12', 'C02'], timeout=900),
